@@ -364,6 +364,38 @@ def s16(led, rid, ctx):
               "all_different does not post binary_not_equals on the two loop indices")
 
 
+def s17(led, rid, ctx):
+    """after the trail is cut back, the mark up to which propagators have been notified is reset to
+    the new trail length on every path (otherwise a later backtrack replays undo events of entries
+    the propagators never saw)"""
+    lib = ctx.lib
+    f = lib.method("ConstraintSatisfactionSolver", "backtrack")
+    R = resolver(f)
+    cfg = f.cfg
+    param = None
+    for a in f.args:
+        if f.local_name(a["local"]) == "last_notified_cp_trail_index":
+            param = a["local"]
+    if param is None:
+        raise AnchorMissing("parameter last_notified_cp_trail_index of backtrack")
+    syncs = [c for c in f.calls if c.name == "synchronise" and "Assignments" in (c.self_ty or c.target_def or "")]
+    stores = []
+    for b in f.blocks:
+        for st in b["stmts"]:
+            if st["s"] == "assign" and st["dst"]["local"] == param and st["dst"]["proj"] and "deref" in st["dst"]["proj"][0]:
+                e = R.rvalue(st["rv"])
+                if any(c.name == "num_trail_entries" for c in e.calls()):
+                    stores.append(b["id"])
+    ok = bool(syncs) and bool(stores) and all(
+        any(cfg.dominates(sy.bb, sb) and all(cfg.dominates(sb, r) for r in cfg.returns) for sb in stores)
+        for sy in syncs)
+    led.check(ok, rid, "backtrack:notified-mark-reset", f.span,
+              "*last_notified_cp_trail_index = num_trail_entries() after synchronise, on every path",
+              "backtrack does not reset the notified-trail mark after cutting the trail back: the next "
+              "backtrack sends undo notifications for entries no propagator was told about, incremental "
+              "propagator state (fixed-term counters, sums) goes negative or stale")
+
+
 def s_level(led, rid, ctx):
     res = C10.explore(ctx.lib)
     it, apis, B, trans, guards = res
@@ -421,3 +453,4 @@ def _u5b(led, rid, ctx):
     _kernel.run_bundle(led, ctx, "S")
     from . import kernel as _kernel2
     _kernel2.run_lifecycle(led, ctx, "S")
+    run_rule(led, "S17", "backtrack resets the notified-trail mark", s17, ctx)
